@@ -6,6 +6,8 @@ cd "$(dirname "$0")"
 export GOFLAGS=-mod=mod GOPROXY=off GOSUMDB=off GOTOOLCHAIN=local GOWORK=off
 mkdir -p bin .cache
 go build -o bin/vcheck ./cmd/vcheck
+# self-tests of the machinery (explorer, reference model, AST comparer); fast, need no wire
+go test ./internal/explore/ ./internal/ir/ ./internal/astcmp/ >/dev/null
 # pre-build wire's dependencies into the default GOCACHE
 (cd /repo && go build -tags verif -o /dev/null ./cmd/wire)
 # seed cache: compile a println-only program so that runtime & friends are cached
